@@ -369,3 +369,167 @@ func (x *hW) opRemoveEntities(flt Filter, f int, t Entity) {
 		}
 	}
 }
+
+// batchLegal: the exchange (add, rem) is legal for every entity matching (f, t).
+func (x *hW) batchLegal(f int, t Entity, add, rem uint8) (bool, int) {
+	n := 0
+	for j := 0; j < x.n; j++ {
+		if x.modelMatch(j, f, t) {
+			n++
+			if !x.exchangeLegal(j, add, rem) {
+				return false, n
+			}
+		}
+	}
+	return true, n
+}
+
+// opBatchExchange: Batch.Add / Remove / Exchange (+Q) through filter flt (kind f, target t).
+// api: 0 Exchange, 1 Add, 2 Remove. rel >= 0: Relations.ExchangeBatch with target nt.
+func (x *hW) opBatchExchange(flt Filter, f int, t Entity, add, rem uint8, api int, useQ bool, rel int, nt Entity) {
+	legalAll, n := x.batchLegal(f, t, add, rem)
+	vAssume(legalAll) // precondition of the batch call: legal for every matching entity
+	legal := x.locks == 0
+	if rel >= 0 {
+		// relation given: must have an effect, relation must be in the result and target ok
+		legal = legal && add|rem != 0 && x.tgtOK(nt)
+	}
+	a, r := x.ids(add), x.ids(rem)
+	cnt := 0
+	var q Query
+	pan, _ := vCatch(func() {
+		switch {
+		case rel >= 0 && useQ:
+			q = x.w.Relations().ExchangeBatchQ(flt, a, r, x.id[rel], nt)
+		case rel >= 0:
+			cnt = x.w.Relations().ExchangeBatch(flt, a, r, x.id[rel], nt)
+		case useQ && api == 0:
+			q = x.w.Batch().ExchangeQ(flt, a, r)
+		case useQ && api == 1:
+			q = x.w.Batch().AddQ(flt, a...)
+		case useQ:
+			q = x.w.Batch().RemoveQ(flt, r...)
+		case api == 0:
+			cnt = x.w.Batch().Exchange(flt, a, r)
+		case api == 1:
+			cnt = x.w.Batch().Add(flt, a...)
+		default:
+			cnt = x.w.Batch().Remove(flt, r...)
+		}
+	})
+	x.expectPanic(pan, !legal, "batch exchange panics exactly when illegal")
+	if pan {
+		return
+	}
+	// model: the single-entity effect on every entity that matched at call time
+	var affected [hMaxH]bool
+	if add|rem != 0 {
+		for j := 0; j < x.n; j++ {
+			if x.modelMatch(j, f, t) {
+				affected[j] = true
+			}
+		}
+		for j := 0; j < x.n; j++ {
+			if affected[j] {
+				x.mExchange(j, add, rem, rel >= 0, nt)
+			}
+		}
+	} else {
+		n = 0
+	}
+	if !useQ {
+		vAssert(cnt == n, "batch call returns the number of matching entities")
+		return
+	}
+	vAssert(q.Count() == n, "batch query counts the affected entities")
+	got := 0
+	for q.Next() {
+		e := q.Entity()
+		idx := -1
+		for j := 0; j < x.n; j++ {
+			if x.h[j] == e && x.alive[j] {
+				idx = j
+			}
+		}
+		vAssert(idx >= 0 && affected[idx], "batch query visits only affected entities")
+		if idx >= 0 {
+			affected[idx] = false
+			for k := 0; k < x.nu; k++ {
+				vAssert(q.Has(x.id[k]) == (x.set[idx]&(1<<k) != 0), "batch query shows the new component set")
+			}
+			if x.set[idx]&(1<<uA) != 0 {
+				vAssert((*hA)(q.Get(x.id[uA])).X == x.a[idx], "batch query gives access to component values")
+			}
+		}
+		got++
+	}
+	vAssert(got == n, "batch query visits every affected entity exactly once")
+}
+
+// opBatchSetRelation: Batch.SetRelation / Relations.SetBatch (+Q).
+func (x *hW) opBatchSetRelation(flt Filter, f int, t Entity, rel int, nt Entity, useQ bool, viaRelations bool) {
+	// precondition: every matching entity carries relation rel
+	n := 0
+	for j := 0; j < x.n; j++ {
+		if x.modelMatch(j, f, t) {
+			n++
+			vAssume(x.set[j]&(1<<rel) != 0)
+		}
+	}
+	legal := x.locks == 0 && x.tgtOK(nt)
+	cnt := 0
+	var q Query
+	pan, _ := vCatch(func() {
+		switch {
+		case useQ && viaRelations:
+			q = x.w.Relations().SetBatchQ(flt, x.id[rel], nt)
+		case useQ:
+			q = x.w.Batch().SetRelationQ(flt, x.id[rel], nt)
+		case viaRelations:
+			cnt = x.w.Relations().SetBatch(flt, x.id[rel], nt)
+		default:
+			cnt = x.w.Batch().SetRelation(flt, x.id[rel], nt)
+		}
+	})
+	x.expectPanic(pan, !legal, "batch SetRelation panics exactly when illegal")
+	if pan {
+		return
+	}
+	var changed [hMaxH]bool
+	nch := 0
+	for j := 0; j < x.n; j++ {
+		if x.modelMatch(j, f, t) {
+			if x.tgt[j] != nt {
+				changed[j] = true
+				nch++
+			}
+		}
+	}
+	for j := 0; j < x.n; j++ {
+		if changed[j] {
+			x.tgt[j] = nt
+		}
+	}
+	if !useQ {
+		vAssert(cnt == n, "batch SetRelation returns the number of matching entities")
+		return
+	}
+	vAssert(q.Count() == nch, "SetRelationQ counts the entities whose target changed")
+	got := 0
+	for q.Next() {
+		e := q.Entity()
+		idx := -1
+		for j := 0; j < x.n; j++ {
+			if x.h[j] == e && x.alive[j] {
+				idx = j
+			}
+		}
+		vAssert(idx >= 0 && changed[idx], "SetRelationQ visits only entities whose target changed")
+		if idx >= 0 {
+			changed[idx] = false
+			vAssert(q.Relation(x.id[rel]) == nt, "SetRelationQ shows the new target")
+		}
+		got++
+	}
+	vAssert(got == nch, "SetRelationQ visits every changed entity exactly once")
+}
